@@ -53,3 +53,15 @@ Proof.
   - apply Z.eqb_eq in E. subst. simpl. repeat split; auto; intros; congruence.
   - apply Z.eqb_neq in E. simpl. repeat split; intros; try congruence; eauto.
 Qed.
+
+(* whatever the option fields hold, the defaulted configuration satisfies cfg_ok *)
+Lemma dflt_pos : forall v d, (0 < d)%Z -> (0 < dflt v d)%Z.
+Proof. intros v d H. unfold dflt. destruct (Z.ltb 0 v) eqn:E; [apply Z.ltb_lt in E; exact E|exact H]. Qed.
+
+Lemma cfg_of_options_ok : forall o asy wt retr, cfg_ok (cfg_of_options o asy wt retr).
+Proof.
+  intros. unfold cfg_ok, cfg_of_options; simpl.
+  assert (A : (0 < eff_batchSize o)%Z) by (apply dflt_pos; reflexivity).
+  assert (B : (0 < eff_maxAttempts o)%Z) by (apply dflt_pos; reflexivity).
+  split; lia.
+Qed.
